@@ -81,7 +81,24 @@ class Tree:
                 t = zsum(zx[a] for a in S) * self.den
                 inside = z3.And(c.zvars[lo] <= t, t <= c.zvars[hi])
                 conj.append(inside if tuple(sorted(S)) in ys else z3.Not(inside))
-        c.check('enumerator-incomplete-or-unsound', z3.And(conj), 'the yielded sub-collections are not exactly those whose total lies within the bounds')
+        if not c.check('enumerator-incomplete-or-unsound', z3.And(conj), 'the yielded sub-collections are not exactly those whose total lies within the bounds'):
+            return
+        # the same tree object enumerated again: after an abandoned enumeration, and by two generators advanced alternately
+        g = tree.generate_tree()
+        for _ in range(min(2, len(yielded))):
+            next(g)
+        g.close()
+        again = [tuple(sorted(s)) for s in tree.generate_tree()]
+        if sorted(again) != sorted(yielded):
+            c.report('enumerator-depends-on-history', 'after an abandoned enumeration the same tree yields %s instead of %s' % (again, yielded)); return
+        g1, g2 = tree.generate_tree(), tree.generate_tree()
+        a1, a2 = [], []
+        for _ in range(len(yielded) + 1):
+            for g, acc in ((g1, a1), (g2, a2)):
+                try: acc.append(tuple(sorted(next(g))))
+                except StopIteration: pass
+        if sorted(a1) != sorted(yielded) or sorted(a2) != sorted(yielded):
+            c.report('enumerator-depends-on-history', 'two interleaved enumerations of one tree yield %s and %s instead of %s' % (a1, a2, yielded))
 
 
 class CombSums:
@@ -198,6 +215,40 @@ class CombGeneral:
             c.check('combination-inconsistent', z3.And(conj), 'a yielded array has sums that do not describe its contents or is not sorted by sum')
 
 
+class CombValues:
+    """(c) BinnerKeepingContents.all_combinations when the items are the VALUES themselves (plain number lists) and all of them are
+    equal to one symbolic value v: bins are then multisets of equal numbers, so two different pairings can produce the same distinct bins
+    with different multiplicities.  The contents structure is symbolic (canonical: the i-th item goes to a bin index >= the (i-1)-th's)."""
+    def __init__(self, k, m1, m2):
+        self.k = k; self.m1 = m1; self.m2 = m2
+
+    def setup(self, c):
+        v = c.newvar('v'); c.assume(c.zvars[v] >= 1)
+        return (v,)
+
+    def fn(self, c, v):
+        k = self.k
+        val = c.num(v)
+        binner = prtpy.BinnerKeepingContents()
+        b1 = binner.new_bins(k); b2 = binner.new_bins(k)
+        shape = [[0] * k, [0] * k]
+        for which, (bins, m) in enumerate(((b1, self.m1), (b2, self.m2))):
+            last = 0
+            for i in range(m):
+                j = last + c.pick(k - last, 'p%d_%d' % (which, i))
+                binner.add_item_to_bin(bins, val, j); shape[which][j] += 1; last = j
+        ys = list(binner.all_combinations(b1, b2))
+        c.outcome = {'structure': shape, 'yielded': len(ys)}
+        # with equal items a bin is characterised by its number of items
+        keys = [tuple(sorted(len(l) for l in lists)) for sums, lists in ys]
+        want = set(tuple(sorted(shape[0][p[i]] + shape[1][i] for i in range(k))) for p in itertools.permutations(range(k)))
+        if set(keys) != want:
+            c.report('combination-missing-or-invented', 'bins with %s and %s equal items: yielded %d distinct pairings %s, %d exist %s'
+                     % (shape[0], shape[1], len(set(keys)), sorted(set(keys)), len(want), sorted(want)))
+        if len(set(keys)) != len(keys):
+            c.report('combination-yielded-twice', 'bins with %s and %s equal items: %d yielded, %d distinct' % (shape[0], shape[1], len(keys), len(set(keys))))
+
+
 class CkkBound:
     """CKK's difference bound on a heap of singleton arrays against the expansion oracle"""
     def __init__(self, n, k):
@@ -230,7 +281,7 @@ class CkkBound:
         c.check('inadmissible-bound', z3.And(conj), 'the CKK difference bound exceeds the difference of a reachable partition')
 
 
-KINDS = {'lb': LowerBound, 'tree': Tree, 'combsums': CombSums, 'combcontents': CombContents, 'combgeneral': CombGeneral, 'ckkbound': CkkBound}
+KINDS = {'lb': LowerBound, 'tree': Tree, 'combsums': CombSums, 'combcontents': CombContents, 'combgeneral': CombGeneral, 'combvalues': CombValues, 'ckkbound': CkkBound}
 
 
 def make(kind, **params):
@@ -259,6 +310,7 @@ def jobs(tier):
     J.append(job('combsums', k=2, cont='arr'))
     J.append(job('combsums', k=3, sorted_inputs=True)); J.append(job('combcontents', k=3))
     J.append(job('combcontents', k=2, two_items=True))
+    J.append(job('combvalues', k=3, m1=2, m2=3)); J.append(job('combvalues', k=4, m1=2, m2=3)); J.append(job('combvalues', k=5, m1=1, m2=4)); J.append(job('combvalues', k=5, m1=2, m2=3))
     J.append(job('combgeneral', k=2, m1=3, m2=2)); J.append(job('combgeneral', k=2, m1=2, m2=0)); J.append(job('combgeneral', k=3, m1=3, m2=1))
     for (n, k) in ((3, 2), (4, 2), (4, 3), (3, 1), (5, 3)):
         J.append(job('ckkbound', n=n, k=k))
